@@ -6,7 +6,8 @@ transformations (single operations, fans on one source, chains of depth 2-4) and
 after every step compares what it reads off the live result (own traversal of
 ``.children/.name/.length``) with what the model says must be invariant: the tip
 multiset, every tip-to-tip path length, the set of non-trivial bipartitions, and
-the source tree (and its ancestors) being left exactly as it was.  The real
+the source tree (and its ancestors) being left exactly as it was, and the node
+names of a returned tree being unique when those of its source were.  The real
 observers (``get_tip_names``, ``get_distances``, ``tip_to_tip_distances``) are
 checked against the same traversal.  Tree-to-tree distances are compared with a
 split/clade-set computation done here (set algebra + a bitmask assignment DP).
@@ -23,13 +24,19 @@ LEVEL = "exploration"
 RULE = (
     "Seeded random model trees with 3-10 (quick) / 3-12 (thorough) tips (rooted = root degree 2, unrooted = root degree >=3; random/ladder "
     "shapes, polytomies, dyadic branch lengths, some with zero or decimal lengths; plain names, or hostile printable "
-    "names built through the node constructor). Per tree: a fan of every unary operation, rooted_with_tip for every "
+    "names built through the node constructor; plain trees are parsed from newick with labelled internal nodes or, "
+    "40 %, without labels so that the parser auto-names them edge.N). Per tree: a fan of every unary operation "
+    "(incl. the DndParser newick route with and without unescape_name), rooted_with_tip for every "
     "tip, rooted_at for every internal node and random get_sub_tree variants on the same source, then random chains "
-    "of depth 2-3 (quick) / 2-4 (thorough); every step is decided separately. Tree-distance cases: pairs on one tip "
+    "of depth 2-3 (quick) / 2-4 (thorough), and follow-ups: a re-building operation (midpoint, unrooted, bifurcating, "
+    "rooted_at, rooted_with_tip, get_sub_tree, sorted) followed on its result by the name-keyed steps (JSON / "
+    "rich-dict round trip, rooted_at for its internal names, get_sub_tree naming an internal node); every step is "
+    "decided separately, including that the string names of a returned tree are unique when the source's were. "
+    "Tree-distance cases: pairs on one tip "
     "set related by same-topology / NNI / edge collapse / independent draw, every method name and alias, both "
     "argument orders. A tree case is non-trivial when the tree has >=5 tips and the history contains an operation "
     "that moves the root or drops tips; distinct = (operation history, rootedness, has polytomy, root degree, "
-    "name class). A distance case is non-trivial when the trees have >=5 tips; distinct = (method, rootedness, "
+    "name class, how the tree was built). A distance case is non-trivial when the trees have >=5 tips; distinct = (method, rootedness, "
     "relation, has polytomy, zero/non-zero)."
 )
 LEVEL_TEXT = (
@@ -48,6 +55,7 @@ ASSUMPTIONS = [
     "branch lengths are multiples of 2**-4 (exact float sums) except in the 'decimal' class, compared to 1e-9",
     "names that both start and end with a single quote are treated by get_newick as already quoted (explicit carve-out in the writer) and are not generated",
     "newick text whose names contain spaces is read back with underscore_unmunge=True (the documented inverse of the writer's space->underscore munging)",
+    "DndParser without unescape_name keeps labels as written: expected tip names are the labels by the writer's documented quoting rule; uniqueness of names is not demanded of DndParser output (it does not name nodes)",
 ]
 TIMEOUT = {"quick": 900, "thorough": 7200}
 
@@ -59,6 +67,7 @@ UNARY = [
     "newick_rt_nodenames",
     "json_rt",
     "richdict_rt",
+    "dnd_rt",
     "copy",
     "deepcopy",
     "copy_deepcopy",
@@ -69,7 +78,7 @@ UNARY = [
     "root_at_midpoint",
 ]
 PARAM = ["rooted_with_tip", "rooted_at", "get_sub_tree"]
-ROUND_TRIPS = {"newick_rt", "newick_rt_nodenames", "json_rt", "richdict_rt"}
+ROUND_TRIPS = {"newick_rt", "newick_rt_nodenames", "json_rt", "richdict_rt", "dnd_rt"}
 MOVES = {"unrooted", "rooted_with_tip", "rooted_at", "root_at_midpoint", "get_sub_tree"}
 
 DYADIC = [0.0625, 0.125, 0.25, 0.5, 0.75, 1.0, 1.5, 2.0, 3.0]
@@ -79,6 +88,7 @@ DECIMAL = [0.1, 0.3, 0.01, 0.7, 1.1, 0.05, 2.3, 0.123456789, 3.3e-07]
 NAME_CLASSES = [
     "quote-leading",
     "bare-metachar",
+    "quote-then-punctuation",
     "dquote-leading",
     "metachar",
     "space-edge",
@@ -92,14 +102,19 @@ NAME_CLASSES = [
 
 _AUTO_NAME = re.compile(r"^edge(\.\d+)*$")
 # classes whose names cannot be written into newick text without quoting
-ESCAPE_CLASSES = ("quote-leading", "bare-metachar", "dquote-leading", "metachar", "space-edge")
+ESCAPE_CLASSES = ("quote-leading", "bare-metachar", "quote-then-punctuation", "dquote-leading", "metachar", "space-edge")
 # failure kinds the model attributes to a name class on a round-trip family (anything else is a different mechanism)
 NAME_FAILURES = {
     ("newick_rt", "quote-leading"): ("TreeParseError",),
     ("newick_rt", "bare-metachar"): ("TreeParseError", "tip-set"),
-    ("json_rt", "needing-newick-escape"): ("TreeParseError", "tip-set", "length-missing"),
-    ("json_rt", "missing-or-duplicated"): ("length-missing",),
+    ("json_rt", "needing-newick-escape"): ("TreeParseError", "tip-set", "length-missing", "distances"),
+    ("json_rt", "missing-or-duplicated"): ("length-missing", "distances"),
+    ("json_rt", "duplicated"): ("length-missing", "distances"),
+    # the Clustal-dnd style reader (cogent3.parse.tree.DndParser)
+    ("newick_rt/dnd", "unbalanced-paren"): ("RecordError",),
+    ("newick_rt/dnd-unescape", "apostrophe"): ("tip-set",),
 }
+PUNCT = "()[],:;"
 
 
 def gen_cases(rng, tier):
@@ -133,6 +148,11 @@ def required(counters, tier):
         "tree:polytomy",
         "tree:zero-length",
         "chain-steps",
+        "tree:auto-named-internal-nodes",
+        "followup:root_at_midpoint",
+        "followup:bifurcating",
+        "followup:get_sub_tree",
+        "names:dnd-quote-inner-then-punctuation",
         "dist:zero",
         "dist:nonzero",
         "dist:pair-mixed-rootedness",
@@ -175,14 +195,15 @@ def gen_model(rng, ntips, rooted, poly, shape="random", lengths="dyadic", zero=0
     return ["root", None, items]
 
 
-def m_newick(m, lengths=True):
+def m_newick(m, lengths=True, internal_names=True):
     def rec(n, root):
         name, ln, ch = n
         s = ""
         if ch:
             s = "(" + ",".join(rec(c, False) for c in ch) + ")"
         if not root:
-            s += name
+            if internal_names or not ch:
+                s += name
             if lengths and ln is not None:
                 s += ":" + repr(float(ln))
         return s
@@ -287,6 +308,11 @@ def build_real(model, build):
         from cogent3 import make_tree
 
         return make_tree(m_newick(model))
+    if build == "newick-auto":
+        # no labels on internal nodes: the parser names them edge.0, edge.1, ...
+        from cogent3 import make_tree
+
+        return make_tree(m_newick(model, internal_names=False))
     from cogent3.core.tree import TreeBuilder
 
     tb = TreeBuilder().create_edge
@@ -311,7 +337,7 @@ def name_class(names):
         if nm.startswith("'"):
             found.add("quote-leading")
         elif "'" in nm:
-            found.add("quote-inner")
+            found.add("quote-then-punctuation" if any(c in PUNCT for c in nm[nm.index("'") :]) else "quote-inner")
         if nm.startswith('"'):
             found.add("dquote-leading")
         elif '"' in nm:
@@ -343,6 +369,33 @@ def all_names(m, out=None, root=True):
     return out
 
 
+def newick_label(name):
+    """the text a node name takes in newick output, by the writer's documented rule: names holding any of
+    []'"(),:;_ are single-quoted with ' doubled, in all other names a space becomes an underscore"""
+    if any(c in name for c in "[]'\"(),:;_"):
+        return "'" + name.replace("'", "''") + "'"
+    return name.replace(" ", "_")
+
+
+def dnd_class(names, unescape):
+    """hazard class of a set of names for the DndParser route (None = fall back to name_class)"""
+    strs = [n for n in names if isinstance(n, str)]
+    if sum(n.count("(") for n in strs) != sum(n.count(")") for n in strs):
+        return "unbalanced-paren"  # DndParser counts parentheses in the raw text
+    if unescape:
+        if any("'" in n for n in strs):
+            return "apostrophe"
+    elif any("'" in n and any(c in PUNCT for c in n[n.index("'") :]) for n in strs):
+        return "quote-inner-then-punctuation"
+    return name_class(names)
+
+
+def relabel_tips(m, mapping):
+    if not m[2]:
+        return [mapping.get(m[0], m[0]), m[1], []]
+    return [m[0], m[1], [relabel_tips(c, mapping) for c in m[2]]]
+
+
 # ---------------------------------------------------------------------------
 # applying one step to the real tree
 
@@ -365,6 +418,11 @@ def apply_step(t, step):
         return deserialise_object(t.to_json())
     if op == "richdict_rt":
         return deserialise_object(t.to_rich_dict())
+    if op == "dnd_rt":
+        from cogent3.parse.tree import DndParser
+
+        text = t.get_newick(with_distances=True)
+        return DndParser([text + "\n"] if step.get("lines") else text, unescape_name=bool(step.get("unescape")))
     if op == "copy":
         return t.copy()
     if op == "deepcopy":
@@ -411,6 +469,9 @@ def gen_step(rng, op, info, ex):
     if op in ("newick_rt", "newick_rt_nodenames"):
         spaces = any(isinstance(n, str) and " " in n for n in all_names(ex))
         step["unmunge"] = True if spaces else rng.random() < 0.5
+    elif op == "dnd_rt":
+        step["unescape"] = rng.random() < 0.5
+        step["lines"] = rng.random() < 0.3
     elif op == "sorted":
         if rng.random() < 0.3:
             order = list(info.tips)
@@ -649,7 +710,15 @@ def start(res, model, build):
     ex, broken = extract(t)
     info = analyse(ex)
     res.evals += 1
-    ok = not broken and info.tips == minfo.tips and info.splits == minfo.splits and not info.missing and same_D(minfo.D, info.D)
+    built_names = [n for n in [ex[0]] + all_names(ex) if n is not None]
+    ok = (
+        not broken
+        and info.tips == minfo.tips
+        and info.splits == minfo.splits
+        and not info.missing
+        and same_D(minfo.D, info.D)
+        and len(set(built_names)) == len(built_names)
+    )
     if not ok:
         res.witness(f"C09/build-{build}/differs-from-model", tree=model, newick=m_newick(model), got=ex,
                     replay_case={"kind": "one", "tree": model, "build": build, "steps": []})
@@ -743,6 +812,9 @@ def do_step(ctx, src_idx, step):
     # to_rich_dict+deserialise_tree, which (a) writes the names unescaped — every class that needs escaping is one
     # cause — and (b) keys the edge attributes by node name — missing or repeated names are one cause
     fam = {"newick_rt_nodenames": "newick_rt", "richdict_rt": "json_rt"}.get(op, op)
+    if op == "dnd_rt":
+        fam = "newick_rt/dnd-unescape" if step.get("unescape") else "newick_rt/dnd"
+        src_cls = dnd_class(src_names, bool(step.get("unescape")))
     keyed_badly = False
     if fam == "json_rt":
         keyed_badly = any(n is None for n in src_names) or len(set(src_names)) != len(src_names)
@@ -759,9 +831,11 @@ def do_step(ctx, src_idx, step):
         if not hostile_rt:
             return mech, {}
         cls_ = src_cls
-        if failure == "length-missing" and fam == "json_rt" and result_ex is not None:
-            # attribute every lost length to a source node, matched by the tips below it
-            lost = _clades_where(result_ex, lambda n: n[1] is None)
+        fam_ = "newick_rt/dnd" if cls_ == "unbalanced-paren" else fam  # the paren count precedes name handling
+        if failure in ("length-missing", "distances") and fam == "json_rt" and result_ex is not None:
+            # attribute every lost or altered length to a source node, matched by the tips below it
+            before, after = _clade_lengths(src_ex), _clade_lengths(result_ex)
+            lost = {c for c in set(before) | set(after) if before.get(c) != after.get(c)}
             counts = {}
             for nm in src_names:
                 counts[nm] = counts.get(nm, 0) + 1
@@ -770,17 +844,22 @@ def do_step(ctx, src_idx, step):
             unnamed = any(nm is None for nm in src_names)
             keyed = _clades_where(
                 src_ex,
-                lambda n: n[0] is None or counts.get(n[0], 0) > 1 or (unnamed and isinstance(n[0], str) and _AUTO_NAME.match(n[0]) is not None),
+                lambda n: n[0] is None or (unnamed and isinstance(n[0], str) and _AUTO_NAME.match(n[0]) is not None),
             )
+            # the same (string) name on several nodes: only a tree that some earlier step returned with repeated
+            # names gets here, that step has its own witness (duplicate-node-names)
+            dups = _clades_where(src_ex, lambda n: n[0] is not None and counts.get(n[0], 0) > 1)
             esc = _clades_where(src_ex, lambda n: name_class([n[0]]) in ESCAPE_CLASSES)
             if lost and lost <= keyed:
                 cls_ = "missing-or-duplicated"
-            elif lost and lost <= (keyed | esc) and src_cls == "needing-newick-escape":
+            elif lost and lost <= (keyed | dups):
+                cls_ = "duplicated"
+            elif lost and lost <= (keyed | dups | esc) and src_cls == "needing-newick-escape":
                 cls_ = "needing-newick-escape"
             else:
                 return mech, {}
-        if failure in NAME_FAILURES.get((fam, cls_), ()):
-            return f"C09/{fam}/names-{cls_}", dict(failure=failure)
+        if failure in NAME_FAILURES.get((fam_, cls_), ()):
+            return f"C09/{fam_}/names-{cls_}", dict(failure=failure)
         return f"C09/{fam}/names-{cls_}/{failure}", dict(failure=failure)
 
     def detail(**kw):
@@ -817,11 +896,10 @@ def do_step(ctx, src_idx, step):
         res.count("refused:" + op)
         r = None
     except Exception as e:  # noqa: BLE001
-        from cogent3.parse.newick import TreeParseError
-
         res.evals += 1
-        if hostile_rt and isinstance(e, TreeParseError):
-            _w(res, names_or(None, "TreeParseError")[0], lambda: detail(failure="TreeParseError", error=str(e)[:300], text=_text_for(t, step)))
+        if hostile_rt and type(e).__name__ in ("TreeParseError", "RecordError"):
+            kind = type(e).__name__
+            _w(res, names_or(None, kind)[0], lambda: detail(failure=kind, error=str(e)[:300], text=_text_for(t, step)))
         else:
             res.witness(exc_mechanism(f"C09/{fam}", e), **detail(error=repr(e)[:300]))
         r = None
@@ -878,6 +956,14 @@ def do_step(ctx, src_idx, step):
         res.evals += 1
         res.witness(f"C09/{fam}/result-not-a-tree", **detail(error=repr(e)[:200], got=repr(r)[:200]))
         return None
+    # a DndParser tree is judged but not taken further: its root and unlabelled nodes have no name at all and its
+    # internal labels are read by other rules than tip labels, which is a different family of trees from the
+    # make_tree ones this monitor chains on
+    terminal = op == "dnd_rt"
+    if terminal and not step.get("unescape"):
+        # without unescape_name DndParser keeps each label as written: map the labels back to the names they stand
+        # for (label text by the writer's documented quoting rule)
+        ex = relabel_tips(ex, {newick_label(n): n for n in src["exp"].tipset})
     info = analyse(ex)
     exp, mode = expect_after(step, src["exp"], src_ex)
     ops = src["ops"] + (op,)
@@ -894,7 +980,7 @@ def do_step(ctx, src_idx, step):
     nt = len(src["exp"].tipset) >= 5 and any(o in MOVES for o in ops)
     if nt:
         root = ctx.trees[0]["info"]
-        res.sig("/".join(ops), "rooted" if root.rootdeg == 2 else "unrooted", "poly" if _has_poly(ctx.model) else "bin", root.rootdeg, ctx.base_cls or "plain")
+        res.sig("/".join(ops), "rooted" if root.rootdeg == 2 else "unrooted", "poly" if _has_poly(ctx.model) else "bin", root.rootdeg, ctx.base_cls or "plain", ctx.build)
 
     failed = False
     rebase = False
@@ -912,6 +998,25 @@ def do_step(ctx, src_idx, step):
             mech = "C09/reroot/unary-root-becomes-tip"
         _w(res, mech, lambda: detail(result=ex, got_tips=info.tips, expected_tips=sorted(exp.tipset), text=_text_for(t, step), **extra))
     else:
+        # node names of a tree the library returns are unique (unnamed nodes aside)
+        res_names = [n for n in [ex[0]] + all_names(ex) if n is not None]
+        had_names = [n for n in [src_ex[0]] + src_names if n is not None]
+        if terminal:
+            pass  # DndParser takes the names from the text and does not name nodes itself
+        elif len(set(had_names)) != len(had_names):
+            res.count("names-already-repeated-in-source")  # reported at the step that produced them
+        else:
+            res.evals += 1
+            if len(set(res_names)) != len(res_names):
+                failed = True
+                twice = sorted({n for n in res_names if res_names.count(n) > 1}, key=repr)
+                # the model's reading of the source: were there nodes without a name for the library to name?
+                unnamed_src = src_ex[0] is None or any(n is None for n in src_names)
+                _w(
+                    res,
+                    f"C09/{fam}/duplicate-node-names" + ("/source-has-unnamed-nodes" if unnamed_src else ""),
+                    lambda: detail(result=ex, repeated=twice),
+                )
         res.evals += 1
         cls = classify_distance_mismatch(exp.D, info.D, exp.splits, exp.tipset, predicted_collapse(src_ex, step, exp.tipset))
         if cls is not None:
@@ -933,7 +1038,7 @@ def do_step(ctx, src_idx, step):
             elif cls == F11:
                 mech, extra = f"C09/{fam}/{cls}", {}
             else:
-                mech, extra = f"C09/{fam}/distances-{cls}", {}
+                mech, extra = names_or(f"C09/{fam}/distances-{cls}", "distances", ex) if fam == "json_rt" else (f"C09/{fam}/distances-{cls}", {})
             if mech is not None:
                 _w(
                     res,
@@ -957,7 +1062,7 @@ def do_step(ctx, src_idx, step):
                 f"C09/{fam}/bipartitions" + ("-not-bifurcating" if mode == "superset" and info.maxdeg > 2 else ""),
                 **detail(result=ex, missing=[_split_repr(s) for s in exp.splits - info.splits], extra=[_split_repr(s) for s in info.splits - exp.splits]),
             )
-    if failed and not rebase and (info.badname or sorted(exp.tipset) != info.tips or info.missing):
+    if terminal or (failed and not rebase and (info.badname or sorted(exp.tipset) != info.tips or info.missing)):
         return None
     # continue from what is there (first divergence already reported)
     new_exp = Exp(info.tipset, info.D if failed else exp.D, info.splits if (failed or mode == "superset") else exp.splits, info.missing)
@@ -1029,6 +1134,20 @@ def _clades_where(m, pred):
     return out
 
 
+def _clade_lengths(m):
+    """tip set below each non-root node -> sorted lengths of the nodes with that tip set"""
+    out = {}
+
+    def rec(n, root):
+        if not root:
+            out.setdefault(frozenset(tips_under(n)), []).append(repr(n[1]))
+        for c in n[2]:
+            rec(c, False)
+
+    rec(m, True)
+    return {k: sorted(v) for k, v in out.items()}
+
+
 def _lengths(m, root=True, out=None):
     out = [] if out is None else out
     if not root:
@@ -1053,7 +1172,7 @@ def _safe_newick(t):
 def _text_for(t, step):
     """the serialised text a round trip went through (evidence for the witness)"""
     try:
-        if step["op"] == "newick_rt":
+        if step["op"] in ("newick_rt", "dnd_rt"):
             return t.get_newick(with_distances=True)
         if step["op"] == "newick_rt_nodenames":
             return t.get_newick(with_distances=True, with_node_names=True)
@@ -1088,6 +1207,14 @@ def run_tree(res, rng, model, build, nchains, maxdepth, ops_fan=None):
             steps.append({"op": "rooted_at", "node": rng.choice(info.tips), "expect_refusal": True})
         for _ in range(6):
             steps.append(gen_step(rng, "get_sub_tree", info, ex))
+    k = 0
+    for st in steps:
+        if st is not None and st["op"] == "dnd_rt":
+            if ops_fan is not None:
+                st["unescape"] = bool(k % 2)  # both routes on every hostile-name tree
+            k += 1
+    if ops_fan is None:
+        steps.append({"op": "dnd_rt", "unescape": not [st for st in steps if st and st["op"] == "dnd_rt"][0]["unescape"], "lines": False})
     rng.shuffle(steps)
     for st in steps:
         if st is not None:
@@ -1120,10 +1247,44 @@ def run_tree(res, rng, model, build, nchains, maxdepth, ops_fan=None):
             idx = nxt
 
 
+def run_followups(res, rng, model, build, every_name):
+    """an operation that re-builds the tree (possibly inserting or dissolving a node), followed on its result by the
+    steps that address nodes by name: JSON / rich-dict round trip, rooted_at for internal names, get_sub_tree naming
+    an internal node"""
+    ctx = start(Result(), model, build)
+    if ctx is None:
+        return
+    ctx.res = res
+    root = ctx.trees[0]
+    firsts = ["root_at_midpoint", "unrooted", "bifurcating", "rooted_at", "rooted_with_tip", "get_sub_tree", "sorted", "unrooted_deepcopy"]
+    if not every_name:
+        firsts = ["root_at_midpoint"] + rng.sample(firsts[1:], 2)
+    for op in firsts:
+        st = gen_step(rng, op, root["info"], root["ex"])
+        if st is None or st.get("expect_refusal"):
+            continue
+        idx = do_step(ctx, 0, st)
+        if idx is None:
+            continue
+        cur = ctx.trees[idx]
+        if len(cur["info"].tips) < 2:
+            continue
+        res.count("followup:" + op)
+        named = [n for n in cur["info"].internal if isinstance(n, str)]
+        do_step(ctx, idx, {"op": rng.choice(["json_rt", "richdict_rt"])})
+        targets = named if (every_name and op in ("root_at_midpoint", "bifurcating")) else rng.sample(named, min(2, len(named)))
+        for nm in targets:
+            do_step(ctx, idx, {"op": "rooted_at", "node": nm})
+        if named and len(cur["info"].tips) >= 3:
+            tips = rng.sample(cur["info"].tips, 2)
+            do_step(ctx, idx, {"op": "get_sub_tree", "names": tips + [rng.choice(named)], "keep_root": rng.random() < 0.3, "tipsonly": False})
+
+
 HOSTILE = {
     "quote-leading": ["'a", "'", "'a b", "''x", "'a'b"],
     "dquote-leading": ['"a', '"a"', '"'],
     "bare-metachar": ["(", ")", ",", ":", ";", "[", "]"],
+    "quote-then-punctuation": ["O'Brien, 1998", "H' (Shannon)", "a':b", "x';y", "it's [sic]", "5',3'", "a'b,c'd", "d' (out):1", "b''c;"],
     "metachar": ["a(b", "a)b", "a,b", "a:b", "a;b", "a[b", "a]b", "a[b]c", "((", "),", "x:", ";;", "[x]", "a:1.0", "(a,b)"],
     "space-edge": [" a", "a ", " a b ", " "],
     "quote-inner": ["a'b", "a'", "a''b", "O'Neil"],
@@ -1161,6 +1322,8 @@ def hostile_names(rng, cls, n):
         c = name_class([cand])
         if c is not None and NAME_CLASSES.index(c) < NAME_CLASSES.index(cls):
             continue
+        if cls == "quote-then-punctuation" and cand.count("(") != cand.count(")"):
+            continue  # keep the parentheses of these trees balanced (DndParser counts them in the raw text)
         out.append(cand)
     while len(out) < n:
         out.append(f"t{len(out)}x")
@@ -1196,7 +1359,11 @@ def run_case(case):
                 res.count("tree:zero-length")
             if lengths == "decimal":
                 res.count("tree:decimal-lengths")
-            run_tree(res, rng, model, "newick", case["chains"], case["maxdepth"])
+            auto = rng.random() < 0.4
+            build = "newick-auto" if auto else "newick"
+            res.count("tree:auto-named-internal-nodes" if auto else "tree:labelled-internal-nodes")
+            run_tree(res, rng, model, build, case["chains"] - (2 if auto else 1), case["maxdepth"])
+            run_followups(res, rng, model, build, every_name=auto)
         res.sample({"tree": m_newick(model)})
     elif kind == "names":
         rng = random.Random(case["seed"])
@@ -1221,9 +1388,11 @@ def run_case(case):
                 rename(model)
             got_cls = name_class(all_names(model))
             res.count("names:" + str(got_cls))
+            if dnd_class(all_names(model), False) == "quote-inner-then-punctuation":
+                res.count("names:dnd-quote-inner-then-punctuation")
             res.count("trees-hostile-names")
             if rng.random() < 0.7:
-                run_tree(res, rng, model, "api", 1, 2, ops_fan=["newick_rt", "newick_rt_nodenames", "json_rt", "richdict_rt", "copy", "sorted", "unrooted_deepcopy"])
+                run_tree(res, rng, model, "api", 1, 2, ops_fan=["newick_rt", "newick_rt_nodenames", "json_rt", "richdict_rt", "dnd_rt", "dnd_rt", "copy", "sorted", "unrooted_deepcopy"])
             else:
                 run_tree(res, rng, model, "api", 2, 3)
         res.sample({"names": all_names(model)})
